@@ -269,6 +269,11 @@ class DriverX:
         self.real = RealX(workdir, "db%d" % wid, legacy=legacy)
         self.real.always_gc = always_gc
         self.eoc = eoc
+        if always_gc:
+            # every step of these walks ends with gc.collect(): park everything that exists now (graph, libraries) in the
+            # permanent generation so that a collection only looks at the objects of the walk
+            gc.collect()
+            gc.freeze()
 
     def reset(self, state):
         objs = sorted(state["life"].keys())
